@@ -480,6 +480,11 @@ func (srv *server) registerClient(connect *packets.Connect, client *client) (ses
 	}
 	if !sessionResume {
 		// create new session
+		// A previous broker process may have died while removing a session of this client id: drop leftovers.
+		err = srv.subscriptionsDB.UnsubscribeAll(client.opts.ClientID)
+		if err != nil {
+			return
+		}
 		// It is ok to pass nil to defaultNotifier, because we will call Init to override it.
 		qs, err = srv.persistence.NewQueueStore(srv.config, nil, client.opts.ClientID)
 		if err != nil {
@@ -780,6 +785,17 @@ func (srv *server) removeSessionLocked(clientID string) (err error) {
 
 	var errs []string
 	var queueErr, sessionErr, subErr error
+	// The session record goes first: a broker that dies in the middle of this function then restarts
+	// without the session (leftover queue / subscription / unack keys are wiped when the client id is used again),
+	// instead of with a session that has lost its queue.
+	sessionErr = srv.sessionStore.Remove(clientID)
+	if sessionErr != nil {
+		zaplog.Error("fail to remove session",
+			zap.String("client_id", clientID),
+			zap.Error(sessionErr))
+
+		errs = append(errs, "fail to remove session: "+sessionErr.Error())
+	}
 	if qs := srv.queueStore[clientID]; qs != nil {
 		queueErr = qs.Clean()
 		if queueErr != nil {
@@ -789,14 +805,6 @@ func (srv *server) removeSessionLocked(clientID string) (err error) {
 			errs = append(errs, "fail to clean message queue: "+queueErr.Error())
 		}
 		delete(srv.queueStore, clientID)
-	}
-	sessionErr = srv.sessionStore.Remove(clientID)
-	if sessionErr != nil {
-		zaplog.Error("fail to remove session",
-			zap.String("client_id", clientID),
-			zap.Error(sessionErr))
-
-		errs = append(errs, "fail to remove session: "+sessionErr.Error())
 	}
 	subErr = srv.subscriptionsDB.UnsubscribeAll(clientID)
 	if subErr != nil {
